@@ -19,7 +19,8 @@ COQ = dict(imports=["Model.Resolve", "Spec.C16"], in_ty="c16_in", out_ty="c16_ou
 THEOREMS = ["C16_decider_sound", "C16_regex_char", "C16_full_id", "C16_prefix_partial", "C16_prefix_complete",
             "C16_prefix_refuted", "C16_symbolic", "C16_relative", "C16_never_outside_branch",
             "C16_model_holds_full_ids", "C16_reference_meaning", "C16_downgrade_label_relative",
-            "C16_downgrade_label_refuted"]
+            "C16_downgrade_label_refuted", "C16_model_holds", "C16_labels_invariant", "C16_labels_single",
+            "C16_labels_ok"]
 TRUSTED = [
     "order oracle: the iteration order of the has_branch_labels set and the last-yielded descendant used by "
     "RevisionMap._add_branches are observed from the real run (same objects, same process) and handed to the model, "
